@@ -41,6 +41,10 @@ DEFAULT_PROFILE = dict(
     p_fn_name_reuse=0.0,     # an impl function named like a function of another type (clash renaming across bases)
     p_extern_only_module=0.0,  # a module that declares nothing but extern values
     p_vft_size_miss=0.0,     # extra weight of the near-miss "vftable #[size] below the occupied slots"
+    p_anon_field=0.06,       # a typed member written `_: T` (any type, maybe `pub` / documented): emitted private as _field_<offset>
+    p_extern_base=0.1,       # a `#[base]` member of an extern type (also in first position, in front of a polymorphic base)
+    p_big_index=0.002,       # a virtual function with an #[index] a few thousand slots further on
+    p_orphan_mod=0.08,       # a nested module (dir/name.pyxis) without a module file for the directory
     p_big_discr=0.0,         # an enum discriminant literal in 2^63 .. 2^64-1 (pyxis reads literals as isize: a parse error today)
     # -- options of the execution oracle (tools/exec_oracle.py); off by default, and when off no random draw changes --
     addr_pool=None,          # (base, stride, count): every #[address] of an impl function, #[singleton] and extern value
@@ -68,6 +72,21 @@ def int_lit(rng, v, forms=True):
     if k < 0.95:
         return "0b" + bin(v)[2:]
     return "0o" + oct(v)[2:]
+
+
+def _stack_can_grow():
+    """tables of thousands of slots need more than the default 8 MB stack in the extracted model (tools/pyxlib.py raises
+    the soft limit to the hard one); where the hard limit is small such inputs are not generated"""
+    try:
+        import resource
+        hard = resource.getrlimit(resource.RLIMIT_STACK)[1]
+        return hard == resource.RLIM_INFINITY or hard >= (1 << 30)
+    except Exception:
+        return False
+
+
+if not _stack_can_grow():
+    DEFAULT_PROFILE["p_big_index"] = 0.0
 
 
 class TypeInfo:
@@ -477,9 +496,21 @@ class Gen:
                 mutate_at = rng.choice(real)
                 self.miss_done = True
             drop_tail = bool(real) and mutate_at is None and not pre_short and self.want_miss()
+            shift_at = None
+            shiftable = [i for i in real if i > 0 and inherit[i - 1] is None]
+            if shiftable and mutate_at is None and not pre_short and not drop_tail and self.expect["miss"] is None and self.p["miss"] > 0 \
+                    and rng.random() < max(0.08, 0.3 * self.p.get("p_slot_mut", 0.0)):
+                # the right functions in the right order, one of them a slot earlier than in the base's table
+                shift_at = rng.choice(shiftable)
+                self.miss_done = True
             for i, d in enumerate(inherit):
                 slots.append(d)
                 if d is None:
+                    continue
+                if i == shift_at:
+                    self.expect["miss"] = "derived vftable declares a base function one slot early"
+                    texts.append(self.render_fn(d, index=i - 1))
+                    emit_pos = i
                     continue
                 if drop_tail and i == real[-1]:
                     self.expect["miss"] = "derived vftable omits the last base slot"
@@ -505,6 +536,8 @@ class Gen:
             pos = len(slots)
             if self.chance("p_index") or pos != emit_pos:
                 idx = pos + rng.choice([0, 0, 1, 2, 3])
+                if rng.random() < self.p.get("p_big_index", 0.0):
+                    idx = pos + 4090 + rng.randint(0, 16)      # a table of several thousand slots
                 while len(slots) < idx:
                     slots.append(None)
             if self.want_miss() and emit_pos > 0:
@@ -555,8 +588,11 @@ class Gen:
         empty = self.chance("p_empty")
         if cands and not empty and self.chance("p_base"):
             nb = rng.choice([1, 1, 1, 2, 3])
+            xcands = [t for t in self.visible_types(mod) if t.kind == "extern"]
             for bi in range(nb):
                 b = rng.choice(cands)
+                if xcands and rng.random() < self.p.get("p_extern_base", 0.0):
+                    b = rng.choice(xcands)       # an opaque (extern) type as a base: no functions, no vftable
                 if packed and b.align > 1:
                     continue
                 if bi > 0 and b.has_vftable and rng.random() < 0.5:
@@ -593,15 +629,22 @@ class Gen:
         miss_here = None
 
         field_meta = {}
+        gap_after_anon = False
 
-        def place(fname, ttext, size, align, attrs, vis_, docs, zero_array=False, doc_lines=None):
+        def place(fname, ttext, size, align, attrs, vis_, docs, zero_array=False, doc_lines=None, anon=False):
             nonlocal cur, max_align, nregions, all_default
-            field_meta[fname] = (vis_ == "pub ", doc_lines or [])
+            if not anon:
+                field_meta[fname] = (vis_ == "pub ", doc_lines or [])
             a = 1 if packed else align
             natural = cur
             off = cur
             need_gap = (off % a) != 0
             extra = rng.random() < self.p["p_gap"]
+            nonlocal gap_after_anon
+            if gap_after_anon:
+                # an unnamed member directly followed by a hole (two adjacent unnamed regions)
+                gap_after_anon = False
+                extra = True
             if need_gap or extra:
                 off = (off + a - 1) // a * a
                 if extra:
@@ -632,7 +675,9 @@ class Gen:
             line = ""
             if explicit and off != natural and rng.random() < 0.4 and off > natural:
                 # write the gap as an unknown<N> field instead of an address
-                stmts.append("    _: unknown<%s>" % int_lit(rng, off - natural, self.chance("p_int_forms")))
+                k_ = rng.random()
+                stmts.append(("    /// reserved\n" if k_ < 0.1 else "") +
+                             "    %s_: unknown<%s>" % ("pub " if 0.05 < k_ < 0.2 else "", int_lit(rng, off - natural, self.chance("p_int_forms"))))
                 nregions += 1
                 explicit = rng.random() < 0.3
             elif off != natural:
@@ -645,8 +690,13 @@ class Gen:
             if al:
                 atext = "    #[%s]\n" % ", ".join(al) if rng.random() < 0.6 else "".join("    #[%s]\n" % x for x in al)
             line = self.interleave(docs, atext)
-            line += "    %s%s: %s" % (vis_, fname, ttext)
+            line += "    %s%s: %s" % (vis_, "_" if anon else fname, ttext)
             stmts.append(line)
+            if anon:
+                # an unnamed member is a private, undocumented `_field_<offset in hex>` whatever was written on it
+                fname = "_field_%x" % off
+                field_meta[fname] = (False, [])
+                gap_after_anon = rng.random() < 0.6
             if not (zero_array and size == 0):
                 nregions += 1
                 if not packed:
@@ -674,7 +724,8 @@ class Gen:
             ttext, size, align, fl = self.field_type(mod)
             fname = self.fresh("f")
             docs, dl = self.doc("    ")
-            place(fname, ttext, size, align, [], self.vis(), docs, zero_array=fl.get("array", False), doc_lines=dl)
+            anon = size > 0 and rng.random() < self.p.get("p_anon_field", 0.0)
+            place(fname, ttext, size, align, [], self.vis(), docs, zero_array=fl.get("array", False), doc_lines=dl, anon=anon)
             all_copy &= fl.get("copyable", False) or fl.get("ptr", False)
             all_clone &= fl.get("cloneable", False) or fl.get("ptr", False)
             all_default &= fl.get("defaultable", False) and not fl.get("ptr", False)
@@ -838,6 +889,10 @@ class Gen:
                 if len(parent) < self.p["max_depth"]:
                     mods.append(parent + [self.fresh("n")])
                     continue
+            if rng.random() < self.p.get("p_orphan_mod", 0.0):
+                # a nested module whose enclosing directory has no module file of its own
+                mods.append([self.fresh("dir"), self.fresh("n")])
+                continue
             mods.append([self.fresh("mod")])
         # items in dependency order, spread over the modules
         plan = []
